@@ -436,7 +436,9 @@ def check_routing(rep, fl, rule="R08.2"):
     if ok:
         ea = norm(hi.expand(norm(hi.call_args(evs[0][1])[1])))
         pa = norm(hi.expand(norm(hi.call_args(pes[0][1])[1])))
-        ok = ea == pa and block_dominates(hi, pes[0][0], evs[0][0]) and must_pass_through(hi, [evs[0][0]], from_bi=pes[0][0])
+        # prepare_evict(&item), or prepare_evict(item.index) for the same item
+        same = ea == pa or pa == norm(("field", ea, "index")) or (ea[0] == "agg" and agg_fields(ea).get("index") is not None and norm(agg_fields(ea)["index"]) == pa)
+        ok = same and block_dominates(hi, pes[0][0], evs[0][0]) and must_pass_through(hi, [evs[0][0]], from_bi=pes[0][0])
     rep.check(ok, rule, fl, hi, "forwards item", "the evicted item goes through prepare_evict and then to callback.on_evict, once", "the evicted item is not handed to prepare_evict and callback.on_evict exactly once")
 
 
